@@ -1179,8 +1179,9 @@ def triage(ob, numenv: NumEnv, seed, npoints=6, detail=None, requires=(), assump
             # from the model as well, recompute every kernel / callee output natively, and accept the point only
             # if every assumption of the verification unit holds there (then the VC is refuted at a concrete point)
             free = {}
+            uf_recs = [rec for rec in prims.CALL_LOG if rec["name"].split("::")[0] in ("uf", "ufdt") or rec["name"].startswith("ufjac")]
             for rec in prims.CALL_LOG:
-                if rec["native"] is None:
+                if rec["native"] is None or rec in uf_recs:
                     for sids in rec["out_sids"]:
                         for sid in np.asarray(sids).reshape(-1):
                             key = f"s{int(sid)}"
@@ -1191,9 +1192,24 @@ def triage(ob, numenv: NumEnv, seed, npoints=6, detail=None, requires=(), assump
                 bad = (not numenv.evalb(ob["goal"], env)) if ob["kind"] == "bool" else abs(ob["goal"].p.evalf(env)) > 1e-7
                 applicable = [a for a in assumptions if _implied(a["path"], ob["path"])]
                 if bad and (not ob["path"] or all(numenv.evalb(b, env) for b in ob["path"])) and _requires_hold(applicable, numenv, env):
-                    witness = {"inputs": [np.asarray(a).tolist() for a in arrays], "from": "solver-model (includes the arbitrary state of a loop rule)",
+                    witness = {"inputs": [np.asarray(a).tolist() for a in arrays], "from": "solver-model (includes values of uninterpreted functions / the arbitrary state of a loop rule)",
                                "internal_state": {P.SYMS[k]["name"]: v for k, v in list(free.items())[:40]}, "internal": True}
-                    return {"numeric_worst": 1.0, "holds_numerically": False, "witness": witness}
+                    # values the model gives to uninterpreted functions: a table that a concrete smooth function can interpolate
+                    table, consistent = [], True
+                    for rec in uf_recs:
+                        part, nm = rec["name"].split("::", 1)
+                        args = [np.asarray(numenv.evalf_array(o, env), dtype=np.float64) for o in rec["operands"]]
+                        sids = np.asarray(rec["out_sids"][0])
+                        out = np.vectorize(lambda sd: env[int(sd)])(sids) if sids.size else np.zeros(sids.shape)
+                        for e in table:
+                            if e["part"] == part and e["name"] == nm and all(np.allclose(a, b, rtol=0, atol=1e-12) for a, b in zip(e["args"], args)) and not np.allclose(e["out"], out, atol=1e-9):
+                                consistent = False  # same argument, different value: not a function
+                        table.append({"part": part, "name": nm, "args": [a.tolist() for a in args], "out": np.asarray(out, dtype=np.float64).tolist()})
+                    if consistent:
+                        if table and not any(rec["native"] is None for rec in prims.CALL_LOG):
+                            witness["uf_table"] = table
+                            witness["internal"] = False
+                        return {"numeric_worst": 1.0, "holds_numerically": False, "witness": witness}
     except Exception as e:
         pass
     try:
@@ -1295,7 +1311,13 @@ def confirm_native(contract: Contract, inst: Instance, failure: dict, seed, npoi
     for s in seeds:
         try:
             if isinstance(s, tuple):
-                clauses, mag, (args, kwargs), out = native_clauses(contract, inst, seed, inputs=s[1])
+                if w.get("uf_table"):
+                    if any(("uf", e["name"]) not in prims.UF_NATIVE for e in w["uf_table"]):
+                        native_clauses(contract, inst, seed)  # dry run: registers the uninterpreted functions of the instance
+                    with prims.uf_interpolant(w["uf_table"]):
+                        clauses, mag, (args, kwargs), out = native_clauses(contract, inst, seed, inputs=s[1])
+                else:
+                    clauses, mag, (args, kwargs), out = native_clauses(contract, inst, seed, inputs=s[1])
                 s = "solver-model"
             else:
                 clauses, mag, (args, kwargs), out = native_clauses(contract, inst, s)
@@ -1346,7 +1368,14 @@ def replay(path):
     print(f"replaying {data['contract']} [{data['instance']}] obligation {data['failed_obligation']}")
     nat = data.get("native_replay") or {}
     seed = nat.get("input_seed", data.get("seed", 0))
-    out = confirm_native(contract, inst, {"obligation": data["failed_obligation"], "witness": {"seed": seed}}, data.get("seed", 0))
+    if seed == "solver-model":
+        # the failing input is the solver's counter-model (inputs + values of uninterpreted functions, interpolated
+        # by a concrete smooth function): recorded in the triage witness
+        witness = dict((data.get("numeric_triage") or {}).get("witness") or {})
+        witness.pop("seed", None)
+    else:
+        witness = {"seed": seed}
+    out = confirm_native(contract, inst, {"obligation": data["failed_obligation"], "witness": witness}, data.get("seed", 0))
     print(json.dumps({k: v for k, v in out.items() if k != "inputs"}, indent=1, default=str)[:3000])
     if out.get("violated"):
         print(f"VIOLATION property={pid} replay={path}")
